@@ -529,13 +529,23 @@ package swap
 //@ interface EventContext.Validate
 //@ assigns nothing
 
+// ghost.ranState: the state whose action completed last; ghost.inSendEvent: the
+// driver running is SendEvent (true) or Recover (false)
+//@ ghost ranState StateType
+//@ ghost inSendEvent bool
 //@ interface Action.Execute
 //@ requires @C13,C15,C07 persisted-before: !ghost.dirty
+//@ requires @C15,C07,in:s recovery-respects-failonrecover: ghost.inSendEvent || !s.States[s.Current].FailOnrecover
 //@ ensures ghost.dirty
+//@ ensures @in:s ghost.ranState == s.Current
 // actions receive the services and the swap data, not the state machine: its id is out of their reach
 //@ ensures @in:s s.SwapId == old(s.SwapId) && s.SwapId.String() == old(s.SwapId.String())
 
 //@ interface Store.UpdateData
+// a state is made durable only together with the results of its action: never
+// between the transition and the action (a crash there would re-run or fail over
+// an action whose effects are not recorded)
+//@ requires @C15,C07,in:s state-settled: data == s && ghost.ranState == s.Current
 //@ ensures result == nil ==> !ghost.dirty
 //@ assigns ghost.dirty
 
@@ -543,6 +553,8 @@ package swap
 //@ property C09 C13 C15 C01 C04 C07 C08 C12
 //@ requires clean: !ghost.dirty
 //@ typeinv s != nil && s.swapServices != nil && s.Data != nil
+// the machine rests in a state whose action has completed; this driver is SendEvent
+//@ typeinv ghost.ranState == s.Current && ghost.inSendEvent
 //@ requires @C09 addressed: ghost.msgPeer == "" || s.Data.PeerNodeId == ghost.msgPeer
 //@ loop 0 invariant !ghost.dirty
 //@ ensures @C13,C15 persisted: (result1 == nil) ==> !ghost.dirty
@@ -551,6 +563,7 @@ package swap
 //@ func (*SwapStateMachine).Recover
 //@ property C13 C15 C07
 //@ requires s != nil && s.swapServices != nil && s.Data != nil && !ghost.dirty
+//@ typeinv ghost.ranState == s.Current && !ghost.inSendEvent
 //@ ensures @C13,C15 persisted: (result1 == nil) ==> !ghost.dirty
 
 // the request was validated: exactly one of asset / network is set
@@ -797,3 +810,8 @@ package swap
 //@ property C29
 //@ ensures @C29 terminal-states: result == (s.Current == State_ClaimedCsv || s.Current == State_SwapCanceled || s.Current == State_ClaimedPreimage || s.Current == State_ClaimedCoop)
 //@ assigns nothing
+
+// C05/C16: on Bitcoin the taker's start height, once taken, is never replaced
+// (the payment window and the "too close to csv" cut-off are measured from it)
+//@ stepinv getSwapOutSenderStates Started @C05,C16 start-frozen: (swap.GetChain() == btc_chain && old(swap.StartingBlockHeight) != 0) ==> swap.StartingBlockHeight == old(swap.StartingBlockHeight)
+//@ stepinv getSwapInReceiverStates Started @C05,C16 start-frozen: (swap.GetChain() == btc_chain && old(swap.StartingBlockHeight) != 0) ==> swap.StartingBlockHeight == old(swap.StartingBlockHeight)
